@@ -115,11 +115,11 @@ func (g *gen) misc(parent *Node) *Node {
 }
 
 func (g *gen) commentValue() string {
-	return g.pick("commentVal", []string{"c", "note", "", " x ", "1", "a b"})
+	return g.pick("commentVal", []string{"c", "note", "", " x ", "1", "a b", "l1\nl2"})
 }
 
 func (g *gen) pi(parent *Node) *Node {
-	return &Node{Kind: PI, Local: g.pick("piTarget", []string{"t", "u", "style"}), Value: g.pick("piVal", []string{"", "d", "x=1", "2"}), Parent: parent}
+	return &Node{Kind: PI, Local: g.pick("piTarget", []string{"t", "u", "style"}), Value: g.pick("piVal", []string{"", "d", "x=1", "2", "d\ne"}), Parent: parent}
 }
 
 func lookup(scope []binding, prefix string) (string, bool) {
